@@ -849,6 +849,7 @@ func main() {
 	values := buildValueCases(r)
 	panics := buildPanicCases(r)
 	ctxviews := buildCtxviewCases(r)
+	handshakes := buildHandshakeCases(r)
 	sampleStride = len(cases)/4 + 1
 	workers := 8
 	ch := make(chan func())
@@ -865,6 +866,10 @@ func main() {
 	for _, vc := range ctxviews {
 		vc := vc
 		ch <- func() { runCtxviewCase(r, vc) }
+	}
+	for _, hc := range handshakes {
+		hc := hc
+		ch <- func() { runHandshakeCase(r, hc) }
 	}
 	for _, vc := range values {
 		vc := vc
@@ -931,6 +936,7 @@ func main() {
 
 	requireValues(r)
 	requireCtxview(r)
+	requireHandshake(r)
 
 	r.Finish("chains over {pass P, modify-request Q, modify-result R, short-circuit result S, short-circuit JSON-RPC error E, fail F}: thorough = all 1555 of length 0..4, quick = all 43 of length <= 2 plus 150 seeded of length 3..4; "+
 		"x server kinds {S-json, S-sse, L-sse} x methods {tools/call with every option form; tools/list, ping, prompts/get with rotating forms} x option forms {single WithMiddleware(a,b,..), one option per middleware, split 2+rest; none/empty for length 0} (WithSSEMiddleware on the legacy server); "+
@@ -943,7 +949,11 @@ func main() {
 			"Plus scenario ctxview: pass-through chains of length 1..4 (option forms rotating; thorough: every form) on all six HTTP configurations {S-json, S-sse, SL-json, SL-sse, S-nosession, L-sse} with two HTTP context functions and the three list filters; "+
 			"per server 2 (3) raw peers send {tools/call, prompts/get, resources/read, tools/list, prompts/list, resources/list, ping, x-vendor/do} one after the other and then all at once (held together inside one middleware), every request with its own header token; "+
 			"every middleware (before and after next) and the innermost code (handler / list filter) records what it reads through ClientSessionFromContext, GetSessionFromContext, GetServerFromContext, GetNotificationSender, the context-function values, session data, ctx.Err/Deadline and the values outer stages added; "+
-			"a (configuration x accessor x method) cell counts when all views of a fully observed request agreed (ctxview_cells_held, 6 x 9 x 8 = 432).",
+			"a (configuration x accessor x method) cell counts when all views of a fully observed request agreed (ctxview_cells_held, 6 x 9 x 8 = 432). "+
+			"Plus scenario handshake: on all six HTTP configurations, chains of length 1..3 (thorough 1..4, every position) in which one stage — a middleware at the given position, or the tool / prompt handler — refuses exactly one request of a session "+
+			"by a Go error, a short-circuit result or a short-circuit JSON-RPC error; the refused request is the first initialize of the connection, an initialize sent again with the live session's id, ping, tools/list, tools/call or prompts/get. "+
+			"Script per session: [refused first initialize] handshake, listening stream (GET stream on stateful Streamable, the legacy stream), server notification, ping + tools/call, the refused request, [notifications/initialized], ping + tools/list + tools/call + prompts/get, server notification. "+
+			"Judged: the refused request's own trace and answer; every other request of the session passes the whole onion once with the session's own session and gets a result; a stream that delivered before the refusal still delivers after it.",
 		[]string{
 			"the handler stage is observable only for tools/call and prompts/get; for ping and tools/list 'the handler ran' is judged by the answer",
 			"for every other method (off the dispatch table or unmodelled built-in) the core's answer is whatever a middleware-free server of the same kind and registrations answers (asked twice at start, time-of-day members removed); the property is that the innermost middleware sees an answer of that class and the client receives it after the modify-result stages",
@@ -959,5 +969,6 @@ func main() {
 			"scenario ctxview: GetServerFromContext is judged for 'none or this server' and for agreement among the middlewares only: the tool manager adds the server handle for tool handlers by design (counted per stage kind in ctxview_server_handle/*)",
 			"scenario ctxview: the innermost code of resources/read and of the list methods is attributed to its request by the context-function value (their params carry nothing of the request)",
 			"scenario values, legacy SSE: an answer missing at the 30 s watchdog is a violation only when the request's trace is complete and a ping posted afterwards on the same session was answered",
+			"scenario handshake: whether a refused first initialize leaves a session behind, what the core makes of a handler's error, the HTTP status of notifications/initialized after a refused initialize and what the stages of a re-initialize see as session are left open; a stream notification missing on a stream that is still open is inconclusive",
 		})
 }
